@@ -536,7 +536,7 @@ fn child(job: &str) {
     let shard: usize = parts[1].parse().unwrap();
     let nshards: usize = parts[2].parse().unwrap();
     let bound: usize = parts[3].parse().unwrap();
-    let cfg = vsched::Config { preemption_bound: bound, max_steps: 5_000, exec_timeout: Duration::from_secs(30), record_trace: false, max_executions: u64::MAX };
+    let cfg = vsched::Config { preemption_bound: bound, max_steps: 5_000, exec_timeout: Duration::from_secs(30), record_trace: false, max_executions: u64::MAX, count_all_deviations: false };
     let p2 = prog.clone();
     let body = move || execution(&p2);
     if shard == 0 {
@@ -601,19 +601,24 @@ fn programs(thorough: bool) -> Vec<(Program, usize)> {
     };
     // ---- core family (both tiers): hand-picked so that every mechanism is raced; every schedule
     //      with <= 2 preemptions ----
+    // Fork and thread creation are serialised system-wide in this sandbox (~300 executions/s in
+    // total), so the quick tier is budgeted in executions: bound 2 only where a second preemption
+    // is known to matter, bound 1 elsewhere; the thorough tier runs everything at >= 2.
+    let b2 = 2;
+    let b1 = if thorough { 2 } else { 1 };
     for k in ["rc", "rl"] {
         // same region, same processor: a writer racing the region's first access, then re-reading
-        add(&mut v, &format!("{k}:1:f:SGG@0,G@0"), 2);
+        add(&mut v, &format!("{k}:1:f:SGG@0,G@0"), b2);
         // two regions: the writer races the FIRST access of the other region
-        add(&mut v, &format!("{k}:1+1:f:SG@0,G@1"), 2);
+        add(&mut v, &format!("{k}:1+1:f:SG@0,G@1"), b1);
         // two writers in two regions
-        add(&mut v, &format!("{k}:1+1:f:SG@0,SG@1"), 2);
+        add(&mut v, &format!("{k}:1+1:f:SG@0,SG@1"), b1);
         // per-access region lookup instead of the pinned fast path
-        add(&mut v, &format!("{k}:1+1:l:S@0,G@1"), 2);
+        add(&mut v, &format!("{k}:1+1:l:S@0,G@1"), b1);
         // three regions, one of them touched by nobody before quiescence
-        add(&mut v, &format!("{k}:1+1+1:f:S@0,G@2"), 2);
+        add(&mut v, &format!("{k}:1+1+1:f:S@0,G@2"), b1);
         // two processors in one region
-        add(&mut v, &format!("{k}:2:f:S@0,G@1"), 2);
+        add(&mut v, &format!("{k}:2:f:S@0,G@1"), b1);
     }
     if thorough {
         // ---- deep family: every schedule with <= 3 preemptions ----
